@@ -28,7 +28,7 @@ class Work:
 
         def loop_idle():
             libs = [t for t in sim.threads if t.kind == "lib" and t.state != "done"]
-            return all(t.state == "blocked" for t in libs)
+            return all(t.state == "blocked" and t.blocked_on != "stall" for t in libs)
 
         def do(op, sch, who):
             kind = op[0]
@@ -153,7 +153,7 @@ class Prop:
                 else:
                     ops.append(["dispose"])
             scripts.append(ops)
-        return {"exit_if_empty": rng.random() < 0.5, "scripts": scripts, "sched": th.gen_sched(rng, spurious_p=0.3, drift_p=0.5, sweep_p=0.02)}
+        return {"exit_if_empty": rng.random() < 0.5, "scripts": scripts, "sched": th.gen_sched(rng, spurious_p=0.3, drift_p=0.5, sweep_p=0.02, stall_p=0.3)}
 
     def execute(self, sc):
         if sc["sched"].get("sweep") and "cps" not in sc:
